@@ -614,6 +614,15 @@ static void needles_text(const uint8_t* s, size_t n) {
         while (i < n && s[i] != ' ') ++i;
         ends[nt++] = i;
     }
+    /* a single word of the phrase is phrase text too: every token of seven bytes or more, and what is left of it when
+       the non-ASCII bytes (accents) are taken out - a comparer's private, accent-stripped copy */
+    for (int t = 0; t < nt; ++t) {
+        size_t l = ends[t] - starts[t];
+        if (l >= 7 && l <= 40) needle_add("word", s + starts[t], l);
+        uint8_t a[40]; size_t m = 0; bool had = false;
+        for (size_t q = starts[t]; q < ends[t] && m < sizeof a; ++q) { if (s[q] < 0x80) a[m++] = s[q]; else had = true; }
+        if (had && m >= 6) needle_add("word", a, m);
+    }
     for (int t = 0; t + 1 < nt; ++t) {
         size_t l1 = ends[t] - starts[t], l2 = ends[t + 1] - starts[t + 1];
         if (l1 > 16) l1 = 16;      /* tail of the first, head of the second */
@@ -777,7 +786,9 @@ enum { OP_INJECT, OP_ENABLE, OP_CREATE, OP_FREE, OP_ENCODE, OP_DECODE, OP_DECODE
 
 static TLS polyseed_str g_str_out_area[2];         /* [0] is the caller's buffer, [1] must stay untouched */
 static TLS uint8_t g_store_out[POLYSEED_SIZE + 16];
-static TLS uint8_t g_key_out[1200];
+static TLS uint8_t g_key_area[1200 + 16] __attribute__((aligned(16)));
+static TLS unsigned g_key_off = 0;      /* "keygen ... off=K": the caller's key buffer starts K bytes past a 16-byte boundary */
+#define g_key_out (g_key_area + g_key_off)
 
 static void call_body(void) {
     switch (C.op) {
@@ -910,7 +921,14 @@ static polyseed_dependency make_deps(const char* spec) {
     return d;
 }
 
+static TLS bool nfkd_identity = false;  /* "env nfkd=identity": an injected normaliser that returns its input (the library may rely on nothing else) */
 static void prepare_nfkd(const uint8_t* s) {
+    if (nfkd_identity) {
+        size_t n = strlen((const char*)s);
+        if (n > sizeof nfkd_prepared) n = sizeof nfkd_prepared;
+        memcpy(nfkd_prepared, s, n); nfkd_prepared_n = n; nfkd_valid = true;
+        return;
+    }
     utf8proc_uint8_t* res = utf8proc_NFKD((const utf8proc_uint8_t*)s);
     if (res) {
         size_t n = strlen((char*)res);
@@ -930,6 +948,7 @@ static void reset_all(void) {
     /* free every live seed with a known dependency table; the injection is an API call like any other
        (a crash of the library's self-test here is the library's, and so is anything it does in there) */
     polyseed_dependency d = make_deps("AAAAAAAA");
+    nfkd_identity = false;
     fprintf(out, "{\"e\":\"Begin\",\"op\":\"Inject\",\"set\":\"AAAAAAAA\""); eol();
     nev = 0;
     cur_op = "inject"; in_api = 1;
@@ -959,7 +978,8 @@ static void finish_constructor(const char* op, int hr) {
     }
     flush_queue();
     emit_ret_common(op);
-    fprintf(out, ",\"st\":%d,\"h\":%d,\"blk\":%ld", (int)C.st, id, blkid);
+    /* outw: the call failed and yet stored something through seed_out ("... and no seed") */
+    fprintf(out, ",\"st\":%d,\"h\":%d,\"blk\":%ld,\"outw\":%s", (int)C.st, id, blkid, (C.st != POLYSEED_OK && C.seed_out != NULL) ? "true" : "false");
 }
 
 /* ------------------------------------------------------------------------------------------- */
@@ -1032,6 +1052,7 @@ static void run_script(FILE* in) {
                 else if (!strncmp(tok[i], "langenv=", 8)) { strncpy(env_lang, strcmp(tok[i] + 8, "-") ? tok[i] + 8 : "", sizeof env_lang - 1); }
                 else if (!strncmp(tok[i], "mask=", 5)) { memset(env.mask, 0, sizeof env.mask); unhex(tok[i] + 5, env.mask, sizeof env.mask); }
                 else if (!strncmp(tok[i], "fail=", 5)) env.fail = (unsigned)strtoul(tok[i] + 5, NULL, 10);
+                else if (!strncmp(tok[i], "nfkd=", 5)) nfkd_identity = !strcmp(tok[i] + 5, "identity");
             }
         }
         else if (!strcmp(op, "str")) {
@@ -1252,6 +1273,7 @@ static void run_script(FILE* in) {
             C.str = (const char*)gp; nfkd_for = C.str;
             fprintf(out, "{\"e\":\"Begin\",\"op\":\"%s\",\"coin\":%d,\"lang\":\"%s\",\"wantlang\":%s,\"sreg\":%d,\"fail\":%u", ex ? "DecodeX" : "Decode", (int)C.coin,
                 lid, C.want_lang ? "true" : "false", bigbuf ? NREG - 1 : sr, env.fail & 0xffff);
+            fprintf(out, ",\"idn\":%s", nfkd_identity ? "true" : "false");
             if (bigbuf) { emit_bytes("str", bigbuf, big > EVBUF ? EVBUF : big); fprintf(out, ",\"len\":%zu", big > (1u << 30) ? (size_t)(1u << 30) : big); }
             else { emit_bytes("str", s, n > EVBUF ? EVBUF : n); fprintf(out, ",\"len\":%zu", n); }
             eol();
@@ -1340,8 +1362,10 @@ static void run_script(FILE* in) {
             int hr = reg(tok[1]); if (!hregs[hr].p) continue;
             C.op = OP_KEYGEN; C.seed = hregs[hr].p; C.coin = (polyseed_coin)atoi(tok[2]); C.size = (size_t)strtoull(tok[3], NULL, 10);
             /* sizes above 1000 are passed to the library as they are; the KDF stub writes at most 1000 bytes */
+            g_key_off = 0;
+            for (int q = 4; q < nt; ++q) if (!strncmp(tok[q], "off=", 4)) g_key_off = (unsigned)atoi(tok[q] + 4) & 15;
             kdf_key_ptr = g_key_out; kdf_key_len = C.size > 1000 ? 1000 : C.size; kdf_fill = (uint8_t)(n_lines * 7 + 13);
-            memset(g_key_out, 0xEE, sizeof g_key_out);
+            memset(g_key_area, 0xEE, sizeof g_key_area);
             fprintf(out, "{\"e\":\"Begin\",\"op\":\"Keygen\",\"h\":%d,\"coin\":%d,\"size\":%zu,\"size_mid\":%zu,\"size_hi\":%zu", hregs[hr].id, (int)C.coin,
                 C.size & 0xffff, (C.size >> 16) & 0xffff, (C.size >> 32) > 0xffff ? (size_t)0xffff : (C.size >> 32)); eol();
             needles_seed(C.seed, 0);
@@ -1349,7 +1373,8 @@ static void run_script(FILE* in) {
             /* the key buffer must hold exactly what the KDF wrote, and nothing beyond it */
             bool keyok = true;
             for (size_t i = 0; i < kdf_key_len; ++i) { uint8_t want = i < 64 ? env.mask[i] : (uint8_t)(kdf_fill + i); if (g_key_out[i] != want) keyok = false; }
-            for (size_t i = kdf_key_len; i < sizeof g_key_out; ++i) if (g_key_out[i] != 0xEE) keyok = false;
+            for (size_t i = kdf_key_len; i < 1200; ++i) if (g_key_out[i] != 0xEE) keyok = false;
+            for (unsigned i = 0; i < g_key_off; ++i) if (g_key_area[i] != 0xEE) keyok = false;
             flush_queue();
             emit_ret_common("Keygen"); fprintf(out, ",\"keyintact\":%s", keyok ? "true" : "false");
             emit_ret_end();
